@@ -49,6 +49,12 @@ def chain(seed, k, tier):
         for hh in (m - 1, m, m + 1):
             if hh > h - 1 and hh not in s.blocks:
                 s.grade(hh)
+    # the old burn address can still be paid as a mining payout address after its zeroing: what it holds at 2.0.2 is NOT touched there
+    if sc["V202"] - sc["DevRewards"] >= 4:
+        hb = sc["DevRewards"] + 2
+        if hb not in s.blocks:
+            b2 = s.grade(hb)
+            b2["opr"]["payTo"] = ["OLDBURN", "DEV2"] + scen.MINERS[2:]
     # funds sent to the special addresses between the adjustments
     mid = [hh for hh in sorted(s.blocks) if hh > h]
     for hh in rnd.sample(mid, min(3, len(mid))):
